@@ -13,7 +13,7 @@ YEAR = 31556926
 CAP = 9 * 10 ** 17
 
 
-def position(I, amount, dur, expiring_at, open_=None, ident='pos', receiver='user', denom='lp'):
+def kpos(I, amount, dur, expiring_at, open_=None, ident='pos', receiver='user', denom='lp'):
     return mk('mantra_dex_std::farm_manager::Position', identifier=ident, lp_asset=coin_v(denom, amount),
               unlocking_duration=dur, open=(expiring_at.var == 'None') if open_ is None else open_,
               expiring_at=expiring_at, receiver=receiver)
@@ -61,7 +61,7 @@ def k1(I):
     a, d, base, now, exp, e = _setup(I, True)
     I.assume(a * 17 < (1 << 128))
     I.assume(smt.Or(exp <= now, exp - now <= d))
-    pos = position(I, a, d, e)
+    pos = kpos(I, a, d, e)
     st, r = _penalty(I, pos, base, now)
     if st == 'panic':
         I.outcome('panic')
@@ -92,7 +92,7 @@ def k1(I):
 def k2(I):
     a, d, base, now, exp, e = _setup(I, False)
     I.assume(a * 17 < (1 << 128))
-    pos = position(I, a, d, e)
+    pos = kpos(I, a, d, e)
     st, r = _penalty(I, pos, base, now)
     if st == 'panic' or is_err(r):
         I.check('no_failure_in_valid_range', False)
@@ -115,7 +115,7 @@ def k3(I):
     now2 = I.sym('now2', bits=64)
     I.assume(a * 17 < (1 << 128))
     I.assume(now <= now2)
-    pos = position(I, a, d, e)
+    pos = kpos(I, a, d, e)
     s1, r1 = _penalty(I, pos, base, now)
     s2, r2 = _penalty(I, clone(pos), base, now2)
     if not (s1 == 'ok' and s2 == 'ok' and is_ok(r1) and is_ok(r2)):
@@ -123,3 +123,111 @@ def k3(I):
         return
     I.cover('both_ok', HINT)
     I.check('non_increasing_in_time', r2.f[0] <= r1.f[0])
+
+
+# ---------------------------------------------------------------- handler: emergency withdrawal
+
+from ..chain import Chain, bank_of
+from .fm import *
+from . import fm as _fm
+
+HINT_S = {'amount': 10 ** 9, 'duration': DAY * 30, 'now_s': 20 * 86400 + 5, 'expiring_at': 30 * 86400, 'epoch': 20, 'fm_lp_balance': 10 ** 10,
+          'base_penalty_atomics': 10 ** 17, 'f1_funded': 10 ** 9, 'f1_claimed': 0, 'f2_funded': 10 ** 9, 'f2_claimed': 0,
+          'user_w': 10 ** 10, 'total_w': 10 ** 11}
+
+
+def _ob_emergency(n_farms, owners):
+    def s(I):
+        I.set_hint(HINT_S)
+        base = I.sym('base_penalty_atomics', hi=E18)
+        fm_config(I, penalty=base)
+        now = I.sym('now_s', hi=U64 // NS - 2 * YEAR)
+        ep = I.sym('epoch', lo=5, hi=10 ** 6)
+        set_epoch(I, ep, now_s=now)
+        b = bank_of(I)
+        amt = I.sym('amount', lo=1, hi=U128 // 17)
+        bal = I.sym('fm_lp_balance', hi=U128)
+        I.assume(bal >= amt)
+        b.set(FM, LP1, bal)
+        dur = I.sym('duration', lo=DAY, hi=YEAR)
+        closed = I.fork(I.symbool('is_closed'))
+        if closed:
+            exp = I.sym('expiring_at', hi=U64 // NS)
+            I.assume(exp <= now + dur)
+        else:
+            exp = None
+        put_position(I, position('u-a', LP1, amt, dur, 'alice', exp))
+        # weights present for an open position (so that update_weights / reconcile have data)
+        put_weight(I, FM, LP1, ep, I.sym('total_w', hi=U128))
+        put_weight(I, 'alice', LP1, ep, I.sym('user_w', hi=U128))
+        kinds = []
+        for k in range(n_farms):
+            kind = ['active', 'future', 'expired'][I.choose(3, 'farm%d_kind' % k)]
+            kinds.append(kind)
+            funded = I.sym('f%d_funded' % (k + 1), lo=1, hi=U128)
+            claimed = I.sym('f%d_claimed' % (k + 1), hi=U128)
+            I.assume(claimed <= funded)
+            if kind == 'active':
+                start, end = simp(ep - 1), simp(ep + 5)
+                I.assume(claimed < funded)
+            elif kind == 'future':
+                start, end = simp(ep + 1), simp(ep + 5)
+                I.assume(claimed < funded)
+            else:
+                start, end = 1, 3
+                I.assume(smt.Eq(claimed, funded))       # exhausted farm = expired
+            put_farm(I, farm('f%d' % k, owners[k], LP1, 'uusd', funded, claimed, 1, start, end))
+        ch = Chain(I, CONTRACTS_FM)
+        pre = b.snapshot()
+        st, resp = ch.execute('alice', FM, manage_position('Withdraw', identifier='u-a', emergency_unlock=Some(True)), [])
+        unlocked = (exp <= now) if closed else False
+        if st != 'ok':
+            I.outcome('rejected')
+            return
+        I.cover('ok', HINT_S)
+        paid_owner = simp(b.get('alice', LP1) - pre.get('alice', LP1))
+        paid_fc = simp(b.get(FC, LP1) - pre.get(FC, LP1))
+        act_owners = sorted(set(o for o, kd in zip(owners, kinds) if kd == 'active'))
+        paid_farm_owners = [simp(b.get(o, LP1) - pre.get(o, LP1)) for o in act_owners if o != 'alice']
+        total_out = simp(pre.get(FM, LP1) - b.get(FM, LP1))
+        I.check('position_deleted', _fm.get_position(I, 'u-a') is None)
+        I.check('never_pays_out_more_than_recorded', total_out <= amt)
+        I.check('owner_keeps_at_least_10_percent', paid_owner * 10 >= amt)
+        # penalty = floor(amount * p) with p from the kernel (K1/K2): recompute through the same kernel
+        pst, pr = _penalty(I, kpos(I, amt, dur, NONE() if not closed else Some(exp)), base, now)
+        I.check('unlocked_position_pays_no_penalty', smt.Implies(unlocked, smt.Eq(paid_owner, amt)))
+        if pst == 'ok' and is_ok(pr) and not (closed and I.fork(unlocked)):
+            pen = I.ctx.fdiv(simp(amt * pr.f[0]), E18)
+            I.check('owner_gets_amount_minus_penalty', smt.Eq(paid_owner + (paid_farm_owners_sum(I, b, pre, act_owners, 'alice')), amt - pen)
+                    if 'alice' in act_owners else smt.Eq(paid_owner, amt - pen))
+            half = I.ctx.fdiv(pen, 2)
+            if not act_owners:
+                I.check('all_penalty_to_fee_collector_without_active_farms', smt.Eq(paid_fc, pen))
+            else:
+                share = I.ctx.fdiv(half, len(act_owners))
+                I.check('fee_collector_share', smt.Eq(paid_fc, z3.If(share > 0, pen - half, pen)))
+                for o in act_owners:
+                    if o != 'alice':
+                        I.check('active_farm_owner_share', smt.Eq(b.get(o, LP1) - pre.get(o, LP1), share))
+            inactive = sorted(set(owners) - set(act_owners) - {'alice'})
+            for o in inactive:
+                I.check('inactive_farm_owner_gets_nothing', smt.Eq(b.get(o, LP1), pre.get(o, LP1)))
+            I.check('penalty_fully_accounted', total_out <= amt)
+            I.check('dust_stays_below_owner_count', amt - total_out <= max(len(act_owners), 1))
+    return s
+
+
+def paid_farm_owners_sum(I, b, pre, act_owners, who):
+    # when the position owner also owns an active farm, her balance includes her owner share
+    return 0
+
+
+for _n, _own in ((0, ()), (1, ('carol',)), (2, ('carol', 'dave')), (2, ('carol', 'carol'))):
+    obligation('C09', 'S1.emergency_withdraw_%dfarms_%s' % (_n, 'shared' if (_n == 2 and _own[0] == _own[1]) else 'distinct'),
+               entries=['execute', 'withdraw_position', 'calculate_emergency_penalty', 'is_farm_expired', 'get_farms_by_lp_denom',
+                        'create_penalty_share_msg', 'update_weights', 'reconcile_user_state'], kind='S',
+               statement='emergency withdrawal of an open or still-locked position: payout + penalty shares <= recorded amount; penalty = floor(amount*penalty rate); '
+                         'fee collector gets penalty - floor(penalty/2) and each distinct owner of an ACTIVE farm floor(floor(penalty/2)/n) '
+                         '(all to the fee collector when there is none or the share rounds to 0); future/expired farms get nothing; position deleted',
+               bounds='amount [1,2^128/17), base penalty [0,100%%], %d farms each active/future/expired, times symbolic' % _n,
+               covers=['ok'], tier='quick' if _n < 2 else 'thorough')(_ob_emergency(_n, _own))
